@@ -345,7 +345,7 @@ func RunC16(r *core.Run) {
 	st.Exhaustive = true
 	st.Space = fmt.Sprintf("%d header names registered for SIP that are not in the table (and their compact forms), in 4 letter cases", len(otherSIPHeaders))
 	// D: 8-bit samples of length 3 and random long names
-	r.Stage("random-names", r.Pick(2000000, 60000000), func(w *core.Worker, idx int64) {
+	r.Stage("random-names", r.Pick(2000000, 300000000), func(w *core.Worker, idx int64) {
 		rr := core.NewRand(r.Seed, 0xC16, 4, uint64(idx))
 		var nm []byte
 		switch rr.Intn(4) {
@@ -554,7 +554,7 @@ func RunC20(r *core.Run) {
 	})
 	st.Exhaustive = true
 	st.Space = es.Desc()
-	r.Stage("random-embedded", r.Pick(2000000, 60000000), func(w *core.Worker, idx int64) {
+	r.Stage("random-embedded", r.Pick(2000000, 300000000), func(w *core.Worker, idx int64) {
 		rr := core.NewRand(r.Seed, 0xC20, 2, uint64(idx))
 		var b []byte
 		n := rr.Range(0, 4)
